@@ -179,7 +179,7 @@ pub fn correct_request(op: &FeOp, flags: u32, res: &Resources) -> (Vec<u8>, Vec<
         FeOp::GetInflightFd(a, b, c, d) => (p_inflight(*a, *b, *c, *d), vec![]),
         FeOp::SetInflightFd(a, b, c, d) => (p_inflight(*a, *b, *c, *d), vec![m(2)]),
         FeOp::AddMemRegion(g, s, u, o, i) => (p_single_region(&Region { gpa: *g, size: *s, user: *u, offset: *o }), vec![m(*i)]),
-        FeOp::RemoveMemRegion(g, s, u, o) => (p_single_region(&Region { gpa: *g, size: *s, user: *u, offset: *o }), vec![]),
+        FeOp::RemoveMemRegion(g, s, u, o) | FeOp::RemoveMemRegionNoFd(g, s, u, o) => (p_single_region(&Region { gpa: *g, size: *s, user: *u, offset: *o }), vec![]),
         FeOp::SetDeviceStateFd(d) => (p_transfer(*d, 0), vec![m(3)]),
     };
     (message(code, flags, &payload), fds)
